@@ -72,6 +72,7 @@ class Ctx:
         self.max_decisions = max_decisions
         self.functions = set()
         self.stubs = set()
+        self.stats = {}
 
     # ---- inputs -------------------------------------------------------------------------
     @property
@@ -641,6 +642,9 @@ def process_scenario(task):
                 if cc is None or not cc.pre_ok:
                     continue
                 out['validation']['points'] += 1
+                if cc.stats.get('histories'):
+                    out.setdefault('stats', {})
+                    out['stats']['traces_validated'] = out['stats'].get('traces_validated', 0) + cc.stats['histories']
                 env = cc.env
                 for pi, ctx in enumerate(paths):
                     pc = [p for p in ctx.pre]
@@ -677,6 +681,9 @@ def process_scenario(task):
             for t in ctx.axiom_texts:
                 if t not in out['axioms']:
                     out['axioms'].append(t)
+            for k_, v_ in ctx.stats.items():
+                out.setdefault('stats', {})
+                out['stats'][k_] = out['stats'].get(k_, 0) + v_
             for fnm in ctx.functions:
                 out.setdefault('functions', [])
                 if fnm not in out['functions']:
